@@ -36,7 +36,7 @@ def main(argv):
            "subspaces": collections.Counter(), "sim_time": 0.0, "steps": 0,
            "violations": {}, "samples": [], "truncated": False, "sut_errors": 0,
            "hashseed": os.environ.get("PYTHONHASHSEED"), "violating_runs": 0,
-           "choice_points": 0, "known": {}, "unknown_violations": 0}
+           "choice_points": 0, "known": {}, "unknown_violations": 0, "known_examples": {}}
     digests = set()
     kept = {}
     known = findings.load()
@@ -68,6 +68,9 @@ def main(argv):
             kf = findings.match(known, prop, v)
             if kf is not None:
                 res["known"][kf] = res["known"].get(kf, 0) + 1
+                if kf not in res["known_examples"]:
+                    res["known_examples"][kf] = {"run": i, "seed": seed, "case": case,
+                                                 "tape": list(tape.rec), "violation": v}
                 continue
             res["unknown_violations"] += 1
             rec = kept.get(v["oracle"])
